@@ -206,6 +206,13 @@ inline std::string makeX(sim::Rng &r) { XGen g(r); return g.make(); }
 
 // Assembly programs built from I/O, arithmetic, loop and call blocks over labels.
 inline std::string makeAsm(sim::Rng &r) {
+  // Now and then the very first instruction after reset is not the usual branch but a one-byte store
+  // (areg, breg are 0) to a word beyond the image, which the program then reads back and exits with.
+  if (r.chance(1, 12)) {
+    std::string k = std::to_string(8 + r.below(8));
+    return std::string(r.chance(1, 2) ? "STAM " : "STAI ") + k + "\nBR start\nDATA " + std::to_string(150000 + r.below(49000)) + "\nstart\nLDAM " + k +
+           "\nLDBM 1\nSTAI 2\nLDAC 0\nOPR SVC\n";
+  }
   std::string s = "BR start\nDATA " + std::to_string(150000 + r.below(49000)) + "\n";
   int nd = 1 + (int)r.below(4);
   for (int k = 0; k < nd; k++) s += "d" + std::to_string(k) + "\nDATA " + std::to_string((int64_t)r.range(-70000, 70000)) + "\n";
@@ -269,6 +276,14 @@ inline std::string makeAsm(sim::Rng &r) {
       }
     }
   }
+  if (r.chance(1, 10)) {
+    // The exit stub is written into free memory far above the image and branched to: the last
+    // instructions execute outside the loaded image (LDAC v; LDBM 1; STAI 2; LDAC 0 / OPR SVC).
+    unsigned v = (unsigned)r.below(16), at = 100000 + (unsigned)r.below(40000);
+    uint32_t w0 = (0x30u | v) | (0x11u << 8) | (0x82u << 16) | (0x30u << 24);
+    s += "LDAC " + std::to_string(w0) + "\nSTAM " + std::to_string(at) + "\nLDAC 211\nSTAM " + std::to_string(at + 1) + "\nLDBC " + std::to_string(at * 4) + "\nOPR BRB\n";
+    return s;
+  }
   s += "LDAM " + data() + "\nLDBM 1\nSTAI 2\nLDAC 0\nOPR SVC\n";
   return s;
 }
@@ -300,6 +315,29 @@ inline std::string makeSizedX(sim::Rng &r) {
   for (unsigned q = 0; q < a; q++) s += r.chance(1, 2) ? "; g := " + std::to_string(r.below(50)) : std::string("; g := g + 1");
   for (unsigned q = 0; q < b; q++) s += "; put(g, 0)";
   s += "; exit(g) }\n";
+  return s;
+}
+
+// Big programs: images of 40 000 - 190 000 words (a constant table behind the code whose last entry
+// is the exit value), and X programs whose string constants make up a few hundred kB.
+inline std::string makeBigAsm(sim::Rng &r) {
+  static const unsigned corner[] = {49990, 50000, 50010, 65530, 65540, 100000, 131072, 150000};
+  unsigned n = r.chance(1, 2) ? corner[r.below(8)] + (unsigned)r.below(8) : 40000 + (unsigned)r.below(150000);
+  unsigned sp = n + 100 + (unsigned)r.below(199900 - (n + 100));
+  unsigned v = (unsigned)r.below(256), fill = (unsigned)r.below(1000);
+  std::string s = "BR start\nDATA " + std::to_string(sp) + "\nstart\nLDAM last\nLDBM 1\nSTAI 2\nLDAC 0\nOPR SVC\n";
+  std::string line = "DATA " + std::to_string(fill) + "\n";
+  s.reserve(s.size() + (size_t)n * line.size() + 32);
+  for (unsigned q = 0; q + 1 < n; q++) s += line;
+  s += "last\nDATA " + std::to_string(v) + "\n";
+  return s;
+}
+inline std::string makeBigX(sim::Rng &r) {
+  unsigned k = 200 + (unsigned)r.below(1300), len = 100 + (unsigned)r.below(150);
+  std::string lit(len, (char)('a' + r.below(26)));
+  std::string s = "val put = 1; val exit = 0;\nproc strout(array s, val n) is var i; { i := 0; while i < n do { put(s[i], 0); i := i + 1 } }\nproc main() is {\n";
+  for (unsigned q = 0; q < k; q++) s += "strout(\"" + lit + "\", " + std::to_string(q % 97 == 0 ? 1 : 0) + ");\n";
+  s += "exit(" + std::to_string(r.below(256)) + ") }\n";
   return s;
 }
 
